@@ -2,10 +2,11 @@
 virtual loop under start/stop histories placed at every suspension point.
 
 case = {"src": {"k": "periodic", "poll": ticks} | {"k": "iterable", "items": [...]}, "sink": "ctl"|"sync",
-        "actions": [["start"], ["stop"], ["adv", ticks], ["ack"]],
+        "actions": [["start"], ["stop"], ["adv", ticks], ["ack"],
+                    ["multi", ["start"|"stop", ...]]  several calls back to back in ONE loop callback (model: SMulti)],
         optional "stop_on": v, "stop_via": "src"|"node": the consumer calls stop() on the source (or on the sink node:
         Stream.stop walks upstream) from INSIDE its callback when it is handed v, i.e. while the polling coroutine is
-        in the middle of an emission (oracle only)}
+        in the middle of an emission (model: ss_stop_on = Some v)}
 """
 import logging
 import vloop
